@@ -59,7 +59,7 @@ func init() {
 			{Name: "time (polling timer, context deadlines)", Kind: "stub", Note: "testing/synctest bubble (go1.26.8): virtual clock"},
 			{Name: "object store", Kind: "stub", Note: "SimDisk"},
 		},
-		Budget: core.StdBudget(2500, 100*time.Second, 300000, 25*time.Minute),
+		Budget: core.StdBudget(2500, 100*time.Second, 300000, 9*time.Minute),
 		Body:   runC20,
 	})
 }
